@@ -337,98 +337,98 @@ func runProp(prop, tier string, seed uint64, outPath, replayDir, knownPath strin
 			for j := range ch {
 				progress("start %d", j.idx)
 				func() {
-				defer progress("done %d", j.idx)
-				keep := allKeep(j.spec.N)
-				if keepOverride != nil {
-					keep = keepOverride
-				}
-				t, err := j.spec.Run(keep)
-				if err != nil {
+					defer progress("done %d", j.idx)
+					keep := allKeep(j.spec.N)
+					if keepOverride != nil {
+						keep = keepOverride
+					}
+					t, err := j.spec.Run(keep)
+					if err != nil {
+						mu.Lock()
+						sum.Broken = append(sum.Broken, fmt.Sprintf("case %s: %v", j.spec.Name, err))
+						mu.Unlock()
+						return
+					}
+					v, err := drv.Check(t)
+					if err != nil {
+						mu.Lock()
+						sum.Broken = append(sum.Broken, fmt.Sprintf("case %s: %v", j.spec.Name, err))
+						mu.Unlock()
+						drv, _ = StartDriver()
+						return
+					}
+					diffs, mons := relevant(ps, v)
 					mu.Lock()
-					sum.Broken = append(sum.Broken, fmt.Sprintf("case %s: %v", j.spec.Name, err))
+					sum.Cases++
+					sum.Steps += len(keep)
+					sum.Lines += len(t.Lines)
+					for k, n := range v.Cov {
+						sum.Cov[k] += n
+					}
+					h := strings.Join(inputLines(t), "\n")
+					if len(keep) > 1 {
+						distinct[h] = true
+					}
+					if len(sum.Samples) < 3 && len(keep) > 3 {
+						sum.Samples = append(sum.Samples, strings.Join(firstN(inputLines(t), 12), " ;; "))
+					}
 					mu.Unlock()
-					return
-				}
-				v, err := drv.Check(t)
-				if err != nil {
+					if len(v.Others) > 0 {
+						mu.Lock()
+						sum.Broken = append(sum.Broken, fmt.Sprintf("case %s: driver said %q", j.spec.Name, v.Others[0]))
+						mu.Unlock()
+					}
+					if len(diffs) == 0 && len(mons) == 0 {
+						return
+					}
+					// shrink, preserving the first relevant complaint's identity
+					kind, lines := "diff", diffs
+					if len(mons) > 0 {
+						kind, lines = "monitor", mons
+					}
+					sig := signature(prop, lines)
 					mu.Lock()
-					sum.Broken = append(sum.Broken, fmt.Sprintf("case %s: %v", j.spec.Name, err))
+					shrunk[sig]++
+					doShrink := shrunk[sig] <= 2
 					mu.Unlock()
-					drv, _ = StartDriver()
-					return
-				}
-				diffs, mons := relevant(ps, v)
-				mu.Lock()
-				sum.Cases++
-				sum.Steps += len(keep)
-				sum.Lines += len(t.Lines)
-				for k, n := range v.Cov {
-					sum.Cov[k] += n
-				}
-				h := strings.Join(inputLines(t), "\n")
-				if len(keep) > 1 {
-					distinct[h] = true
-				}
-				if len(sum.Samples) < 3 && len(keep) > 3 {
-					sum.Samples = append(sum.Samples, strings.Join(firstN(inputLines(t), 12), " ;; "))
-				}
-				mu.Unlock()
-				if len(v.Others) > 0 {
-					mu.Lock()
-					sum.Broken = append(sum.Broken, fmt.Sprintf("case %s: driver said %q", j.spec.Name, v.Others[0]))
-					mu.Unlock()
-				}
-				if len(diffs) == 0 && len(mons) == 0 {
-					return
-				}
-				// shrink, preserving the first relevant complaint's identity
-				kind, lines := "diff", diffs
-				if len(mons) > 0 {
-					kind, lines = "monitor", mons
-				}
-				sig := signature(prop, lines)
-				mu.Lock()
-				shrunk[sig]++
-				doShrink := shrunk[sig] <= 2
-				mu.Unlock()
-				if keepOverride == nil && doShrink {
-					pred := func(k []int) bool {
-						t2, err := j.spec.Run(k)
-						if err != nil {
-							return false
+					if keepOverride == nil && doShrink {
+						pred := func(k []int) bool {
+							t2, err := j.spec.Run(k)
+							if err != nil {
+								return false
+							}
+							v2, err := drv.Check(t2)
+							if err != nil {
+								drv, _ = StartDriver()
+								return false
+							}
+							d2, m2 := relevant(ps, v2)
+							if kind == "monitor" {
+								return len(m2) > 0 && signature(prop, m2) == sig
+							}
+							return len(m2) == 0 && len(d2) > 0 && signature(prop, d2) == sig
 						}
-						v2, err := drv.Check(t2)
-						if err != nil {
-							drv, _ = StartDriver()
-							return false
-						}
-						d2, m2 := relevant(ps, v2)
+						keep = ddmin(keep, pred, 200)
+						t, _ = j.spec.Run(keep)
+						v, _ = drv.Check(t)
+						diffs, mons = relevant(ps, v)
+						lines = diffs
 						if kind == "monitor" {
-							return len(m2) > 0 && signature(prop, m2) == sig
+							lines = mons
 						}
-						return len(m2) == 0 && len(d2) > 0 && signature(prop, d2) == sig
 					}
-					keep = ddmin(keep, pred, 200)
-					t, _ = j.spec.Run(keep)
-					v, _ = drv.Check(t)
-					diffs, mons = relevant(ps, v)
-					lines = diffs
-					if kind == "monitor" {
-						lines = mons
+					caseNo := j.idx
+					if caseNo < 0 {
+						caseNo = (1 << 20) + (-1 - j.idx)
 					}
-				}
-				caseNo := j.idx
-				if caseNo < 0 {
-					caseNo = (1 << 20) + (-1 - j.idx)
-				}
-				rp := writeReplay(replayDir, prop, ps.Mode, seed, caseNo, tier, keep, t, v, "")
-				fd := &Finding{Case: j.spec.Name, Kind: kind, Lines: lines, Replay: rp, Signature: sig}
-				if _, ok := known[sig]; ok && kind == "monitor" {
-					fd.Known = true
-				}
-				mu.Lock()
-				sum.Findings = append(sum.Findings, fd)
-				mu.Unlock()
+					rp := writeReplay(replayDir, prop, ps.Mode, seed, caseNo, tier, keep, t, v, "")
+					fd := &Finding{Case: j.spec.Name, Kind: kind, Lines: lines, Replay: rp, Signature: sig}
+					if _, ok := known[sig]; ok && kind == "monitor" {
+						fd.Known = true
+					}
+					mu.Lock()
+					sum.Findings = append(sum.Findings, fd)
+					mu.Unlock()
 				}()
 			}
 		}()
